@@ -6,15 +6,18 @@ ALL = ["C%02d" % i for i in range(1, 21)]
 
 CLAIMED = {
     "C16": dict(
-        text="Proof (Coq, closed under the global context): for every non-empty factor lists below 2^64 the op list WideRatio emits "
-             "yields exactly floor(prod n / prod d) or fails, never a wrapped value (induction over the factor list with the (hi,lo) "
-             "running-product invariant). Tie: op-list text equality model vs real lowering for every factor-count pair and version, "
-             "plus the real compiled TEAL executed on the extracted AVM against big-integer arithmetic.",
-        note="Trusted: Coq kernel; hand-written AVM op semantics (coq/AVM); the model Comp/WideRatio.v is hand-written and tied by "
-             "text equality on each run; theorem is for constant factors (composite factors: correspondence only); extraction "
-             "(ExtrOcamlBasic, ExtrOcamlNativeString) and the OCaml read-line driver.",
-        technique="Coq proof by induction + text-equality correspondence + extracted-AVM differential run",
-        design_ref="DESIGN.md §4 C16"),
+        text="Proof (Coq, closed under the global context): (1) constant factors: the op list WideRatio emits yields exactly floor(prod n / prod d) or fails, never a wrapped value "
+             "(C16_wide_ratio_exact_or_fails; induction over the factor list with the (hi,lo) running-product invariant); (2) ARBITRARY factor expressions, under the source semantics and on the lowered "
+             "block graph (composition with C01_lower_correct): if the factors evaluate to uint64 values the result is exactly wide_ratio_spec of those values on the original stack, in the state the "
+             "factors left, else failure (C16_wide_ratio_general, C16_wide_ratio_general_graph); for uint64-valued factors EVERY normal outcome at every fuel, stack and state is the exact quotient of the "
+             "values the factors took (C16_wide_ratio_never_wraps, _graph_never_wraps); any exit/return/break outcome is a factor's own (C16_wide_ratio_abrupt_origin/_num/_den). Tie: op-list text equality "
+             "for every factor-count pair and version, plus compiled programs with argument, compound and run-time factors (arithmetic, Txn.fee, If, Len, nested WideRatio, scratch loads) at versions 5..10 "
+             "executed on the extracted AVM against big-integer arithmetic.",
+        note="Trusted: Coq kernel; hand-written AVM op semantics (coq/AVM); Comp/WideRatio.v is hand-written and tied by text equality on each run; the general theorems are about Src/Denote.v + "
+             "Comp/Lower.v (tied to PyTeal by the C01 correspondence and by the compound-factor AVM runs); never_wraps assumes each factor is uint64-valued (WideRatio.__init__ performs no require_type); "
+             "extraction (ExtrOcamlBasic, ExtrOcamlNativeString) and the OCaml read-line driver.",
+        technique="Coq proof (induction + simulation onto the constant-factor theorem + composition with lower_correct) + text-equality correspondence + extracted-AVM differential run with compound factors",
+        design_ref="DESIGN.md §4 C16, design_notes/C16.md"),
     "C17": dict(
         text="Proof (Coq, closed under the global context): for every finite block graph (cycles included) the model of TealBlock.validateSlots "
              "terminates and reports exactly the loads that have a store-free scan path from the routine start, hence every load with a store-free "
